@@ -318,6 +318,16 @@ var lockSpecs = []locksetSpec{
 		Guarded: map[string]string{"hashes": "MPT node hashes still to fetch, with their paths"}},
 }
 
+// ruleLocksetPool (C08): the pool is entered concurrently by the P2P handlers, the RPC server, consensus and block
+// processing; its indexes agree with each other only if every writer excludes everybody else. A map written under the
+// read lock is written by two readers at once (finding 93: Pool.Verify, a query, stored into the fee cache).
+func ruleLocksetPool(c *Ctx) {
+	locksetGeneric(c, locksetSpec{Pkg: "pkg/core/mempool", Type: "Pool", Mutex: "lock",
+		Guarded: map[string]string{"verifiedMap": "hash -> transaction", "verifiedTxes": "the list ordered by priority", "fees": "per-payer balance and sum of fees",
+			"conflicts": "hashes named by Conflicts attributes -> pooled transactions naming them", "oracleResp": "oracle request id -> pooled response"},
+		Exempt: map[string]string{"pkg/core/mempool.New": "constructor: the pool is not shared yet"}})
+}
+
 // ruleLocksetSync: C20 quantifies over arrival orders from concurrent producers: the queue ring and the state-sync
 // bookkeeping are touched only under their mutex.
 func ruleLocksetSync(c *Ctx) {
